@@ -321,6 +321,11 @@ func init() {
 	})
 }
 
+// interleaveCap bounds the length of each sequence in the interleaving relation;
+// the interleaved run is allowed more steps than two capped sequences need, so a
+// capped expectation can never be compared with an uncapped observation.
+const interleaveCap = 4000
+
 func intsParam(l *harness.Live, k string) []int {
 	b, _ := json.Marshal(l.Params[k])
 	var out []int
@@ -383,7 +388,7 @@ func oracleC04Inter(l *harness.Live) (nontrivial bool, f *harness.Failure) {
 		if err != "" {
 			return false, nil // aborts alone as well: not a case for this relation
 		}
-		for len(want[i]) < 5000 {
+		for {
 			id, more, err := step(it)
 			if err != "" {
 				return false, nil
@@ -392,6 +397,9 @@ func oracleC04Inter(l *harness.Live) (nontrivial bool, f *harness.Failure) {
 				break
 			}
 			want[i] = append(want[i], id)
+			if len(want[i]) > interleaveCap {
+				return false, nil // too long for this relation (duplicates multiply on reverse axes): inconclusive
+			}
 		}
 	}
 	// the shared expression, two live iterators, drawn interleaving
@@ -406,7 +414,7 @@ func oracleC04Inter(l *harness.Live) (nontrivial bool, f *harness.Failure) {
 	var got [2][]int
 	done := [2]bool{}
 	switches, last := 0, -1
-	for k := 0; !(done[0] && done[1]) && k < 20000; k++ {
+	for k := 0; !(done[0] && done[1]) && k < 4*interleaveCap+8; k++ {
 		i := 0
 		if len(sched) > 0 {
 			i = sched[k%len(sched)] & 1
